@@ -137,6 +137,27 @@ def run(tier, replay=None):
             s["concretisation"], sum(s["histories_by_length"].values()), s["handshakes"], s["classes"]))
         total_hist += sum(s["histories_by_length"].values())
         hs_total += s["handshakes"]
+    # 4c. real worker: HTTPS listener, certificate commands over the channel, TLS over TCP, strict SNI binding
+    wk = {}
+    for variant in ((0, 1, 2) if thorough else (0, 1)):
+        s = harness(rep, bins, beh, ["--mode", "worker", "--variant", str(variant), "--seed", str(seed * 7 + variant),
+                                     "--walks", "40" if thorough else "6", "--len", "6"])
+        ws = s["worker"]
+        vlib.log("worker %s: %d histories, %s, classes %s" % (s["concretisation"], sum(s["histories_by_length"].values()),
+                                                            json.dumps(ws), s["classes"]))
+        total_hist += sum(s["histories_by_length"].values())
+        for k, v in ws.items():
+            if isinstance(v, int):
+                wk[k] = wk.get(k, 0) + v
+        if ws["routed_under_default_certificate_as_listed_deviation"]:
+            if "DefaultCertLegacySni" not in devs:
+                raise vlib.ToolError("deviation counted although it is not listed")
+            rep.known_finding_seen("default-cert-legacy-sni")
+            rep.known["default-cert-legacy-sni"]["n"] += ws["routed_under_default_certificate_as_listed_deviation"] - 1
+    # vacuity guards of the wire leg: requests were routed and requests were refused with 421
+    if not rep.violations and (wk.get("routed_to_backend", 0) == 0 or wk.get("answered_421", 0) == 0 or wk.get("tcp_tls_handshakes", 0) == 0):
+        raise vlib.ToolError("worker leg is vacuous: %s" % json.dumps(wk))
+    rep.extra["worker_leg"] = wk
     rep.extra["tls_handshakes"] = hs_total
     rep.extra["histories_by_length"] = by_len
     rep.extra["spec_states_reached_on_impl"] = reached
@@ -149,7 +170,9 @@ def run(tier, replay=None):
                        "replace with an unparsable old fingerprint) of length <= %s over 8 certificate variants on 4 real key "
                        "pairs (x3 concretisations), each followed step-wise by seeded operations the spec says change nothing "
                        "(re-add, remove absent, idempotent / failing replace); plus seeded random histories of length %s; plus "
-                       "one shortest history per spec state and random ones ending in real TLS handshakes for all 8 probe names. "
+                       "one shortest history per spec state and random ones ending in real TLS handshakes for all 8 probe names; plus "
+                       "random histories sent to a real worker over the command channel with TCP/TLS handshakes after every step "
+                       "and an SNI x authority request matrix (HTTP/1.1 keep-alive and HTTP/2 streams) at the end. "
                        "The spec's state graph (%d states) is complete, so TLC's verdict covers histories of any length."
                        % ("4 (3 for the RSA pairs)" if thorough else "3 (1/8 of length 4)", "14" if thorough else "10", n_states if not replay else 0))
     rep.assumptions += [
